@@ -184,16 +184,12 @@ func voidTables(c *Ctx, rule string) {
 	var voidSet []string
 	voidName := ""
 	if fd := findFunc(pp, "Element", "IsVoidElement"); fd != nil {
-		for _, lk := range tableLookupsIn(pp.TypesInfo, pp.Types, fd.Body) {
-			if init := pkgVarInit(pp, lk.Name); init != nil {
-				if s, ok := stringSetLiteral(pp.TypesInfo, init); ok {
-					voidSet, voidName = s, lk.Name
-				}
-			}
+		for _, ns := range nameSetsIn(pp, fd) {
+			voidSet, voidName = ns.Names, ns.Source
 		}
 	}
 	if voidSet == nil {
-		c.undec(rule, "void-element-table", "", "could not find the table indexed by parser.Element.IsVoidElement")
+		c.undec(rule, "void-element-table", "", "could not find the set of names parser.Element.IsVoidElement tests (a table lookup, or a switch over constants)")
 		return
 	}
 	var closers []string
@@ -1133,6 +1129,31 @@ func blockTableMembers(c *Ctx, rule string) {
 			}
 		}
 	}
+	// the set the exported predicate Element.IsBlockElement tests (a table lookup, or a switch over constants) comes first
+	if fd := findFunc(pp, "Element", "IsBlockElement"); fd != nil {
+		if sets := nameSetsIn(pp, fd); len(sets) == 1 {
+			ns := sets[0]
+			n := 0
+			for _, name := range ns.Names {
+				n++
+				why := ""
+				if !htmlBlockOrHidden[name] {
+					if _, ex := blockTableExceptions[name]; !ex {
+						why = "not block-level (nor hidden) in the HTML user-agent style sheet"
+					}
+				}
+				src := ns.Table
+				if src == "" {
+					src = "IsBlockElement"
+				}
+				c.check(why == "", rule, pp.PkgPath+"."+src+"|"+name+"|laid-out-as-block", c.pos(ns.Pos[name]), "block-level, hidden, or a listed exception",
+					fmt.Sprintf("<%s> is in the table of block elements but is %s: browsers lay it out inline, so the whitespace the generator drops after it (`</%s> text` is rendered as `</%s>text`) was visible separation between adjacent inline content", name, why, name, name))
+			}
+			c.count("block_table_entries", n)
+			c.floor(rule, 30)
+			return
+		}
+	}
 	if table == nil {
 		c.viol(rule, "anchor-lost:block-element-table", "", "no package-level table (map or list of constant strings) named *block* found in parser/v2")
 		return
@@ -1272,11 +1293,29 @@ func tableLookupsFoldCase(c *Ctx, rule string) {
 		}
 	}
 	n := 0
+	// an element-name lookup: the key is made from the Name field of a parser Element
+	ofElementName := func(key ast.Expr) bool {
+		found := false
+		ast.Inspect(key, func(y ast.Node) bool {
+			if se, ok := y.(*ast.SelectorExpr); ok && se.Sel.Name == "Name" {
+				t := info.TypeOf(se.X)
+				if pt, ok := t.(*types.Pointer); ok {
+					t = pt.Elem()
+				}
+				if nt, ok := t.(*types.Named); ok && nt.Obj().Pkg() == pp.Types && strings.HasSuffix(nt.Obj().Name(), "Element") {
+					found = true
+				}
+			}
+			return true
+		})
+		return found
+	}
 	for _, fd := range allFuncDecls(pp) {
-		for _, lk := range tableLookupsIn(info, pp.Types, fd.Body) {
-			if !strings.HasSuffix(lk.Name, "Elements") {
+		for _, lk := range nameSetsIn(pp, fd) {
+			if !strings.HasSuffix(lk.Table, "Elements") && !ofElementName(lk.Key) {
 				continue
 			}
+			lk.Name = lk.Source
 			n++
 			folds := false
 			ast.Inspect(lk.Key, func(y ast.Node) bool {
@@ -1291,7 +1330,7 @@ func tableLookupsFoldCase(c *Ctx, rule string) {
 				fmt.Sprintf("%s looks the element name up in %s as written, but the parser's name alphabet admits upper-case letters and the table's keys are lower-case: <bR/> or <IMG/> is not recognised as a void / block element and is rendered differently from <br/>", fd.Name.Name, lk.Name))
 			if lk.Sorted {
 				// a binary search finds only what is where the order says it is
-				list := stringListInOrder(info, pkgVarInit(pp, lk.Name))
+				list := stringListInOrder(info, pkgVarInit(pp, lk.Table))
 				inOrder := list != nil && sort.StringsAreSorted(list)
 				first := ""
 				for i := 1; i < len(list); i++ {
